@@ -1,0 +1,17 @@
+//go:build verif
+
+package types
+
+// Contracts for the deductive verifier in /verif (govc). Comment-only; compiled only with -tags verif.
+
+//@ contract computeExecAndCommitGasLimit
+//@   let user = getUserDefinedGasLimit(callbackData)
+//@   let uerr = nth(getUserDefinedGasLimit(callbackData), 1)
+//@   ensures commit: err == nil ==> result1 == ite(user == 0 || user > maxGas, maxGas, user)
+//@   ensures exec: err == nil ==> result0 == ite(remainingGas <= result1, remainingGas, result1)
+//@   ensures bounded: err == nil ==> result0 <= remainingGas && result0 <= result1 && result1 <= maxGas
+//@   ensures error_iff: (err != nil) == (uerr != nil)
+//@   ensures error_zero: err != nil ==> result0 == 0 && result1 == 0
+
+//@ contract (CallbackData).AllowRetry
+//@   ensures result == (c.ExecutionGasLimit < c.CommitGasLimit)
